@@ -291,6 +291,7 @@ def run(tier, seed, prefix='C18', want=('TF', 'SS'), pack=None):
         from contracts.packutil import run_contracts
         run_contracts(pack, [(dummy_value('C18'), None, replay_dummy_value)])
         gain_limiter_at_limits(pack, 'C18')
+        rate_limiter_sides(pack, 'C18')
         # the time constant T of a block is what the integrator uses: dae.Tf is filled after the models' services exist
         from contracts import fn_sequence as Q
         run_contracts(pack, [(Q.system_init('C18'), None, Q.replay_store_tf), (Q.store_tf('C18'), None, Q.replay_store_tf)])
@@ -468,3 +469,17 @@ def gain_limiter_at_limits(pack, prefix='C18'):
         elif d['verdict'] != 'proved':
             pack.undecided_obl(oname, d.get('note', ''))
     pack.add_function('GainLimiter.define (limit regimes)', BLOCK_FILE, obligations=n)
+
+
+def rate_limiter_sides(pack, prefix):
+    """bounded stand-in: each side of a rate limiter clamps only under its own condition (rate-limited lags reduce to the plain lag inside)"""
+    from contracts.packutil import native_guard
+    from contracts import bounded_ratelimiter as BRL
+    name = '%s/andes/core/discrete.py:RateLimiter.check_eq/bounded:each-side-clamps-the-rate-only-under-its-own-condition;inside-the-limits-nothing-changes' % prefix
+    r = native_guard(pack, name, BRL.run)
+    if r is not None:
+        n, bad = r
+        pack.bounded.append({'function': 'RateLimiter.check_eq (also behind LagRate, LagAntiWindupRate, AntiWindupRate)', 'cases': n, 'counted_as_proved': False,
+                             'kind': 'bounded (exhaustive grid of rates, conditions, present / absent sides; real method on an object of the real class)'})
+        if bad:
+            pack.violation(name, {'bounded': True, 'inputs': bad, 'native_cmd': 'contracts/bounded_ratelimiter.py'})
